@@ -178,9 +178,9 @@ Qed.
 
 Lemma no_switch_example :
   no_switch (mkcfg [(1, {| t_filter := Some true; t_depth := Some 2; t_time := None; t_size := None;
-                           t_trace_on := false; t_trace_off := false; t_trace := false; t_caller := true |});
+                           t_trace_on := false; t_trace_off := false; t_trace := false; t_caller := true; t_loc := None; t_finish := false |});
                     (2, {| t_filter := Some false; t_depth := None; t_time := Some 50; t_size := Some 40;
-                           t_trace_on := false; t_trace_off := false; t_trace := true; t_caller := false |})]
+                           t_trace_on := false; t_trace_off := false; t_trace := true; t_caller := false; t_loc := None; t_finish := false |})]
                    true true 3 10 1024 [] PG).
 Proof.
   intro a. unfold mkcfg. cbn [trig_of assoc]. destruct (a =? 1); [split; reflexivity|].
